@@ -29,7 +29,10 @@ RULE = ("the real SyncGroup.start()/run() on the virtual loop over random "
         "in cycle n appear in frame n+1; every counter field of every frame "
         "sent after the first response is 0; from the second cycle on the "
         "error count grows exactly by the number of datagrams whose returned "
-        "counter differs from the expected one. a case = one run; "
+        "counter differs from the expected one; a device whose output "
+        "(1 byte, or 4 bytes declared with the letter 'l') is commanded "
+        "between two cycles: the next frame carries it in its own bytes and "
+        "keeps its length. a case = one run; "
         "non-trivial = >= 5 cycles with at least one wrong counter or lost "
         "frame")
 ASSUMPTIONS = ["the very first frame carries the presets append() stores; "
